@@ -42,10 +42,22 @@ func Decode(data []byte, res any) error {
 // expectNextTypes is your predictions how decoder must parse objects hidden under interfaces.
 // See Decoder.ExpectTypesInInterface description
 func DecodeUnknownObject(data []byte, expectNextTypes ...reflect.Type) (Object, error) {
+	return decodeUnknownObject(data, 0, expectNextTypes...)
+}
+
+// DecodeEmbeddedObject is DecodeUnknownObject for custom unmarshalers which found serialized object inside of the
+// object they are decoding by d (like gzip_packed does): predictions of d are passed through, and embedded object
+// is counted as nested into the current one.
+func (d *Decoder) DecodeEmbeddedObject(data []byte) (Object, error) {
+	return decodeUnknownObject(data, d.depth, d.expectedTypes...)
+}
+
+func decodeUnknownObject(data []byte, depth int, expectNextTypes ...reflect.Type) (Object, error) {
 	d, err := NewDecoder(bytes.NewReader(data))
 	if err != nil {
 		return nil, err
 	}
+	d.depth = depth
 	if len(expectNextTypes) > 0 {
 		d.ExpectTypesInInterface(expectNextTypes...)
 	}
@@ -61,6 +73,11 @@ func (d *Decoder) decodeObject(o Object, ignoreCRC bool) {
 	if d.err != nil {
 		return
 	}
+
+	if !d.enterObject() {
+		return
+	}
+	defer d.leaveObject()
 
 	if !ignoreCRC {
 		crcCode := d.PopCRC()
@@ -357,7 +374,11 @@ func (d *Decoder) decodeRegisteredObject() Object {
 	o := reflect.New(_typ.Elem()).Interface().(Object)
 
 	if m, ok := o.(Unmarshaler); ok {
+		if !d.enterObject() {
+			return nil
+		}
 		err := m.UnmarshalTL(d)
+		d.leaveObject()
 		if err != nil {
 			d.err = err
 			return nil
